@@ -122,6 +122,34 @@ def call_spatial(T, P, ds2):
     return e
 
 
+def call_front(T, P, form, mode, n):
+    """resample(npts= / factor=, mode), track ** n, track * k against the step form with the documented step"""
+    e = {"ev": "front", "form": form, "mode": mode, "n": n, "T": list(T), "P": [list(p) for p in P], "raised": False, "same": False, "lat": True,
+         "api": "front-end:" + form, "kind": "npts", "d": n, "ref": [], "out": []}
+    try:
+        with core.quiet():
+            a, b = mk(T, P), mk(T, P)
+            npts = n if form in ("npts", "pow") else len(T) * n
+            extent = b.duration() if mode == 2 else b.length()
+            if form == "npts":
+                a.resample(npts=n, mode=mode)
+            elif form == "factor":
+                a.resample(factor=n, mode=mode)
+            elif form == "pow":
+                a = a ** n
+            else:
+                a = a * n
+            b.resample(delta=(1 + 1e-8) * extent / npts, mode=mode)
+            ra = [(o.position.getX(), o.position.getY(), o.position.getZ(), o.timestamp.toAbsTime()) for o in a.getObsList()]
+            rb = [(o.position.getX(), o.position.getY(), o.position.getZ(), o.timestamp.toAbsTime()) for o in b.getObsList()]
+        e["same"] = ra == rb
+        e["lens"] = [len(ra), len(rb)]
+    except (Exception, SystemExit) as ex:
+        e["raised"] = True
+        e["exc"] = repr(ex)[:80]
+    return e
+
+
 def call_sync(T1, P1, T2, P2):
     """growth: synchronize(track1, track2) (also behind compare(.., SYNC))"""
     from tracklib.algo.interpolation import synchronize
@@ -204,6 +232,10 @@ def job_random(args):
         if L2 > 0:
             ds2 = rnd.choice([1, 2, 3, 4, 5, 6, L2, L2 + 1, max(1, L2 // 2), max(1, L2 // 3)])
             out.append(call_spatial(T, PS, ds2))
+            # the number-of-points front ends, both modes (** is temporal, * spatial)
+            form = rnd.choice(["npts", "factor", "pow", "mul"])
+            mode = 2 if form == "pow" else 1 if form == "mul" else rnd.choice([1, 2])
+            out.append(call_front(T, PS, form, mode, rnd.randrange(2, 9) if form in ("npts", "pow") else rnd.randrange(1, 4)))
     return out
 
 
@@ -225,7 +257,7 @@ def run(ctx):
                 "divide the duration / length." % mf)
     ctx.assumptions += ["timestamps and steps are multiples of 0.5 s / 0.5 ground units (exact in floating point); request lists in chronological order",
                         "spatial timestamps are accepted within 1 ms of the exact interpolated instant (the implementation truncates to the millisecond)",
-                        "npts / factor front ends (non-dyadic steps) and the spline / Gaussian-process resamplers are not covered"]
+                        "the npts / factor / ** / * front ends (non-dyadic steps) are judged against the step form with the documented step; the spline / Gaussian-process resamplers are not covered"]
     c = ctx.write_cfg("RS.cfg", mc_cfg(mf))
     ctx.tlc_mc("Resample", c, label="Resample design check, 2..%d fixes" % mf, timeout=3000)
     import multiprocessing as mp
@@ -250,7 +282,7 @@ def run(ctx):
         e = byid[i]
         (ctx.growth if e["ev"] == "sync" else ctx.violation)("resample/%s/%s/%s" % (e["ev"], e["api"], clause),
                       "resample %s (%s) times(ticks) %s positions %s request %s -> %s %s: %s" %
-                      ("temporal" if e["ev"] == "T" else "spatial", e["api"], e["T"], e["P"], e["d"] if e["kind"] == "step" else e["ref"],
+                      ("temporal" if e["ev"] == "T" or e.get("mode") == 2 else "spatial", e["api"], e["T"], e["P"], e["d"] if e["kind"] != "list" else e["ref"],
                        e["out"], e.get("exc", ""), clause), e)
     for e in events:
         D = e["T"][-1] - e["T"][0]
